@@ -382,6 +382,104 @@ def e11(rep, src):
                 rep.violation("E11", key, "the filter is only applied inside `%s.map(..)`: when the %s has no inner Map the WHERE clause is dropped" % (show(conditional[0]["recv"], 40), variant), "src/relation/builder.rs:%d" % a["l"])
 
 
+def e12(rep, src):
+    """Order of the branches when a CASE nested in the ELSE position is merged into one multi-branch CASE."""
+    rep.rule(
+        "E12",
+        "RelationToQueryTranslator::case (trait default): the merged CASE lists the current (outer) WHEN/THEN first and the branches of the CASE found in the ELSE position after it, and keeps the nested ELSE",
+        floor=1,
+        necessary="SQL evaluates WHEN branches in order: listing the inner branches first changes the result of every CASE whose conditions overlap",
+    )
+    fs = [f for f in src.find_fns(name="case", file="dialect_translation/mod.rs") if (f.self_ty or "").startswith("trait RelationToQueryTranslator")]
+    key = "RelationToQueryTranslator::case"
+    if len(fs) != 1:
+        rep.undecidable("E12", key, "trait default `case` not found in the macro-defined trait (found %d)" % len(fs), "src/dialect_translation/mod.rs")
+        return
+    f = fs[0]
+    param = [p["pat"]["name"] for p in f.params if not p.get("self") and p["pat"]["k"] == "ident"][0]
+
+    class Und(Exception):
+        pass
+
+    def val(e, env):
+        while e["k"] in ("ref",) or (e["k"] == "mcall" and e["m"] in ("clone", "to_vec", "into_iter", "collect", "iter", "cloned") and not e["args"]):
+            e = e["e"] if e["k"] == "ref" else e["recv"]
+        if e["k"] == "macro" and e["name"] == "vec":
+            return [x for a in e.get("args", []) for x in as_list(val(a, env))] if e.get("args") else []
+        if e["k"] == "index" and path_of(e["e"]) == param and e["i"]["k"] == "lit":
+            return "%s[%s]" % (param, e["i"]["v"])
+        if e["k"] == "path" and e["p"] in env:
+            v = env[e["p"]]
+            return list(v) if isinstance(v, list) else v
+        if e["k"] == "tuple":
+            return tuple(val(x, env) for x in e["elems"])
+        if e["k"] == "call" and path_of(e["f"]) in ("Some", "Box::new"):
+            return val(e["args"][0], env)
+        if e["k"] == "path":
+            return e["p"]
+        return "?" + show(e, 30)
+
+    def as_list(v):
+        return v if isinstance(v, list) else [v]
+
+    def run_block(b, env):
+        stmts = b["stmts"] if b["k"] == "block" else [{"k": "expr", "e": b, "semi": False}]
+        last = None
+        for st in stmts:
+            if st["k"] == "let":
+                v = evaluate(st["init"], env) if st.get("init") is not None else None
+                bind(st["pat"], v, env)
+            elif st["k"] == "expr":
+                last = evaluate(st["e"], env)
+                if st.get("semi"):
+                    last = None
+        return last
+
+    def bind(p, v, env):
+        if p["k"] == "ident":
+            env[p["name"]] = v
+        elif p["k"] == "tuple" and isinstance(v, tuple) and len(v) == len(p["elems"]):
+            for a, b in zip(p["elems"], v):
+                bind(a, b, env)
+        elif p["k"] == "wild":
+            pass
+        else:
+            raise Und("pattern %s" % show(p, 40))
+
+    def evaluate(e, env):
+        if e["k"] == "match":
+            for a in e["arms"]:
+                if a["pat"]["k"] == "struct" and a["pat"]["path"]["segs"][-1] == "Case":
+                    for fl in a["pat"]["fields"]:
+                        nm = fl["pat"]["name"] if fl["pat"]["k"] == "ident" else fl["name"]
+                        env[nm] = ["nested." + fl["name"] + "*"] if fl["name"] in ("conditions", "results") else "nested." + fl["name"]
+                    return run_block(a["body"], env)
+            raise Und("no arm for ast::Expr::Case")
+        if e["k"] == "block":
+            return run_block(e, env)
+        if e["k"] == "mcall" and e["m"] in ("extend", "push", "append") and e["recv"]["k"] == "path" and isinstance(env.get(e["recv"]["p"]), list):
+            env[e["recv"]["p"]] = env[e["recv"]["p"]] + as_list(val(e["args"][0], env))
+            return None
+        if e["k"] == "mcall" and e["m"] == "insert" and e["recv"]["k"] == "path" and isinstance(env.get(e["recv"]["p"]), list) and len(e["args"]) == 2 and e["args"][0]["k"] == "lit" and e["args"][0]["v"] == "0":
+            env[e["recv"]["p"]] = as_list(val(e["args"][1], env)) + env[e["recv"]["p"]]
+            return None
+        if e["k"] == "macro" and e["name"] in ("assert", "debug_assert"):
+            return None
+        if is_call_to(e, "case_builder"):
+            return ("CASE",) + tuple(val(a, env) for a in e["args"])
+        return val(e, env)
+
+    try:
+        r = run_block(f.body, {})
+    except Und as u:
+        rep.undecidable("E12", key, "cannot follow the construction of the merged CASE: %s" % u, f.where())
+        return
+    want = ("CASE", ["%s[0]" % param, "nested.conditions*"], ["%s[1]" % param, "nested.results*"], "nested.else_result")
+    rep.instance("E12", key, {"built": list(r) if isinstance(r, tuple) else r, "expected": list(want)})
+    if r != want:
+        rep.violation("E12", key, "the merged CASE is built as %r, expected %r (outer branch first)" % (r, want), f.where())
+
+
 def run(rep):
     rep.explanation = (
         "Table agreement and structural rules of the render / read round trip on the default (PostgreSQL) path. E3/E4 join the renderer table (variant -> translator method -> SQL spelling, read from the type-resolved MIR) "
@@ -396,5 +494,6 @@ def run(rep):
     e9(rep, src)
     e10(rep, src)
     e11(rep, src)
+    e12(rep, src)
     rep.assume("sqlparser 0.46 parses NAME(args) into ast::Expr::Function with that name, except the keyword functions listed in KEYWORD_FUNCTIONS")
     rep.assume("operators are rendered through same-named ast::BinaryOperator / UnaryOperator variants (read: function_match_constructor!)")
